@@ -86,6 +86,26 @@ def _child(spec: dict) -> dict:  # noqa: C901, PLR0915, PLR0912
     import urwid
     from urwid.display.raw import Screen
 
+    reach_counts = None
+    try:
+        sys.path.insert(1, VERIF)
+        from vmon import reach
+        from urwid.display import _posix_raw_display as _prd
+        from urwid.display import _raw_display_base as _rdb
+
+        ML = urwid.MainLoop
+        reach.watch(
+            ML.run, ML._run, ML.start, ML.stop, ML._update, ML._run_screen_event_loop, ML.process_input, ML.input_filter,
+            ML.unhandled_input, ML.entering_idle, ML.draw_screen, ML.watch_pipe, ML.watch_file, ML.set_alarm_in,
+            _prd.Screen._start, _prd.Screen._stop, _prd.Screen.signal_init, _prd.Screen.signal_restore,
+            _prd.Screen.hook_event_loop, _prd.Screen.unhook_event_loop, _rdb.Screen._stop_mouse_restore_buffer,
+            _rdb.Screen._sigwinch_handler, _rdb.Screen.parse_input, _rdb.Screen.get_input, _rdb.Screen.draw_screen,
+            urwid.PopUpTarget.keypress, urwid.PopUpTarget.mouse_event, urwid.PopUpTarget.render,
+        )  # fmt: skip
+        reach_counts = reach.counts
+    except Exception:  # noqa: BLE001  (evidence only)
+        reach_counts = None
+
     cols, rows = spec.get("size", [40, 10])
     master, slave = pty.openpty()
     fcntl.ioctl(slave, termios.TIOCSWINSZ, struct.pack("HHHH", rows, cols, 0, 0))
@@ -437,6 +457,7 @@ def _child(spec: dict) -> dict:  # noqa: C901, PLR0915, PLR0912
         "custom_handler_calls": custom_calls,
         "started_after": bool(screen.started),
         "t_set": t_set,
+        "reach": reach_counts() if reach_counts else {},
     }
 
 
